@@ -273,7 +273,20 @@ _ONLY = [x for x in _os.environ.get("C23_ONLY", "").split(",") if x]
 _contract = contract
 
 
+def ghost(text):
+    """a clause about the abstract file system / ghost file-object fields: the prover sees `text`; natively it is not
+    executable (the native side cross-checks these functions with the reference models at the end of the file)"""
+    def f(E):
+        return Sym(E.spec_eval(text), "bool")
+    f.__name__ = text
+    return f
+
+
 def contract(rel, qual, prop, **kw):       # noqa  (development aid: C23_ONLY=Log.cycle verifies only the named functions)
+    if qual == "ocfn" or qual.startswith("Log."):
+        for key in ("requires", "ensures"):
+            kw[key] = [ghost(t) if isinstance(t, str) else t for t in kw.get(key, [])]
+        kw["raises"] = {k: [ghost(t) for t in v] for k, v in kw.get("raises", {}).items()}
     return _contract(rel, qual, prop if (not _ONLY or qual in _ONLY) else "C23-not-selected", **kw)
 
 
@@ -284,7 +297,8 @@ FILE_MOD = ["self.file.pend", "self.file.closed"]
 # flush: everything written so far is durable (statement: "every record written before the most recent flush is
 # present in the files"), nothing else changes anywhere
 FLUSH_POST = [
-    "self.file is old(self.file)",
+    "self.file is old(self.file)", "is_open(self) == old(is_open(self))",
+    "implies(not old(is_open(self)), self.file is None or self.file.pend == old(self.file.pend))",
     "implies(not old(is_open(self)), fs_same_except())",
     "implies(old(is_open(self)), fs_same_except(self.file.path) and self.file.pend == '' and not self.file.closed"
     " and self.file.path == old(self.file.path) and fexists(self.file.path) == old(fexists(self.file.path)))",
@@ -297,6 +311,7 @@ contract(FL, "Log.flush", "C23", params=L, setup=fs_setup, modifies=FS_MOD + ["s
 
 # close: flushes first (durable), then the handle is dropped
 CLOSE_POST = [
+    "not is_open(self)",
     "implies(not old(is_open(self)), fs_same_except() and self.file is old(self.file))",
     "implies(old(is_open(self)), self.file is None and old(self.file).closed and old(self.file).pend == ''"
     " and fs_same_except(old(self.file.path)) and fexists(old(self.file.path)) == old(fexists(self.file.path)))",
@@ -535,8 +550,8 @@ REOPEN_POST = [
     # what reopen() without rotation copies touches (quantifier-free form used by cycle())
     "implies(keep <= 0 and not old(is_open(self)), fs_same_except(self.path))",
     "implies(keep <= 0 and old(is_open(self)), fs_same_except(self.path, old(self.file.path)))",
-    "implies(existed(self.path) and not old(is_open(self)), vis(self.path) == old(vis(self.path)))",
-    "implies(not existed(self.path), vis(self.path) == '')",
+    "implies(existed(self.path), content(self, self.path) == oldcontent(self, self.path))",
+    "implies(not existed(self.path) and fexists(self.path), vis(self.path) == '')",
 ]
 # ... and (statement: "each file starting with the header") always into a file that is new
 FIRST_NEW = "implies(not existed(self.path), self.first)"
@@ -547,6 +562,8 @@ REOPEN_INV = [
     "trigger=lambda j: self.paths[j])",
     "is_open(self) and self.file.path == self.path and self.file.writable and self.file.pend == '' and wf(self)",
     NO_TRUNC, NEW_EMPTY, "handles_kept(self)",
+    "implies(existed(self.path), content(self, self.path) == oldcontent(self, self.path))",
+    "implies(not existed(self.path) and fexists(self.path), vis(self.path) == '')",
     "implies(existed(self.path), not self.first)", FIRST_NEW.replace("self.first", "self.first == old(self.first)"),
     "implies(old(self.path) != '', self.path == old(self.path))",
 ]
@@ -596,23 +613,42 @@ ALL_SAME = "forall(STR, lambda q: " + SAME % (("q",) * 4) + ")"
 G = "old(wf(self))"
 
 
+@specfunc
+def moved(E, log, lo):
+    """files lo+1 .. m hold what lo .. m-1 held at entry (each moved up by one: nothing lost but the oldest copy,
+    nothing twice); quantified over PAIRS (a, b = a + 1) with the multi-pattern (paths[a], paths[b])"""
+    lst = E.rd_field(log, "paths")
+    P = E.larrs(lst)[0]
+    n = E.llen(lst)
+    a, b = z3.Int("a!mv"), z3.Int("b!mv")
+    qa, qb = Sym(z3.Select(P, a), "str"), Sym(z3.Select(P, b), "str")
+    body = z3.And(fexists(E, qb).t, content(E, log, qb).t == oldcontent(E, log, qa).t)
+    return Sym(z3.ForAll([a, b], z3.Implies(z3.And(zint(lo) <= a, a < n - 1, b == a + 1), body),
+                         patterns=[z3.MultiPattern(z3.Select(P, a), z3.Select(P, b))]), "bool")
+
+
 def moved_from(lo):
-    """files lo+1 .. m hold what lo .. m-1 held (each moved up by one: nothing lost but the oldest, nothing twice)"""
-    return ("forall(lambda j: implies(%s <= j and j < %s, fexists(self.paths[j + 1]) and "
-            "content(self, self.paths[j + 1]) == oldcontent(self, self.paths[j]))" % (lo, M) + TRIG)
+    return "moved(self, %s)" % lo
 
 
-def kept_below(hi):
-    return ("forall(lambda j: implies(0 <= j and j < %s, " % hi + SAME % (("self.paths[j]",) * 4) + ")" + TRIG)
+def kept_below(hi, lo="0"):
+    return ("forall(lambda j: implies(%s <= j and j < %s, " % (lo, hi) + SAME % (("self.paths[j]",) * 4) + ")" + TRIG)
+
+
+def _g(text):
+    return "implies(%s, %s)" % (G, text)
 
 
 CYCLE_INV = [
     "cycled == True", "not is_open(self)", "len(self.paths) >= 1",
-    moved_from(M + " - _i"), kept_below(M + " - _i"),
-    "implies(_i == 0, " + SAME % (("self.paths[%s]" % M,) * 4) + ")",
+    _g(moved_from(M + " - _i")), _g(kept_below(M + " - _i")),
+    _g("implies(_i == 0, " + SAME % (("self.paths[%s]" % M,) * 4) + ")"),
     "implies(_i > 0, not fexists(self.paths[%s - _i]))" % M,
-    OUTSIDE_SAME,
+    _g(OUTSIDE_SAME),
 ]
+# the main file after a failed rotation: same content, re-created EMPTY by the reopen if it did not exist at all
+MAIN_KEPT = ("implies(existed(self.path), fexists(self.path) and content(self, self.path) == oldcontent(self, self.path))"
+             " and implies(not existed(self.path) and fexists(self.path), content(self, self.path) == '')")
 REOPENED = "(self.file is None or (is_open(self) and self.file.path == self.path and self.file.writable and wf(self)))"
 CYCLE_POST = [
     INV, "self.header == old(self.header)",
@@ -624,12 +660,12 @@ CYCLE_POST = [
     # successful rotation: p[k+1] holds what p[k] held, the main file holds exactly the header, nothing else changed
     "implies(len(self.paths) > 0 and result and %s, %s)" % (G, moved_from("0")),
     "implies(len(self.paths) > 0 and result and %s, fexists(self.path) and content(self, self.path) == self.header "
-    "and is_open(self) and self.file.path == self.path and self.file.writable and wf(self))" % G,
+    "and %s)" % (G, REOPENED),
     "implies(len(self.paths) > 0 and result and %s, %s)" % (G, OUTSIDE_SAME),
     # a rename failed at index k = L_k: files k+1.. were moved up, 0..k are untouched, p[k+1] is a hole (unless it is
     # the oldest), nothing is lost or duplicated, and the main file is open for append again (if it can be opened)
     "implies(ren_failed and %s, not result and %s)" % (G, moved_from("L_k + 1")),
-    "implies(ren_failed and %s, 0 <= L_k and L_k < %s and %s)" % (G, M, kept_below("L_k + 1")),
+    "implies(ren_failed and %s, 0 <= L_k and L_k < %s and %s and %s)" % (G, M, kept_below("L_k + 1", "1"), MAIN_KEPT),
     "implies(ren_failed and %s and L_k + 1 < %s, not fexists(self.paths[L_k + 1]))" % (G, M),
     "implies(ren_failed and %s and L_k + 1 == %s, " % (G, M) + SAME % (("self.paths[%s]" % M,) * 4) + ")",
     "implies(ren_failed and %s, %s and %s)" % (G, OUTSIDE_SAME, REOPENED),
@@ -637,3 +673,386 @@ CYCLE_POST = [
 contract(FL, "Log.cycle", "C23", params=dict(self=Ref("C23Log"), size=INT), setup=fs_setup, requires=[INV],
          modifies=FS_MOD + FILE_MOD + ["self.file", "self.first"],
          loops={0: dict(inv=CYCLE_INV, locals={"cycled": BOOL})}, returns=BOOL, ensures=CYCLE_POST)
+
+
+# ---------------------------------------------------------------- Logger.flush / close / cycle / log
+@specfunc
+def inv_log(E, log):
+    """INV of one log of the logger's list"""
+    env = E.frame.env
+    E.frame.env = dict(env)
+    E.frame.env["self"] = log
+    try:
+        return Sym(E.spec_eval(INV), "bool")
+    finally:
+        E.frame.env = env
+
+
+def _log_call(E, log, args, kwargs):
+    """log() = the rule action of C22 (outside this contract): may buffer text in the log's own file, changes neither
+    the logger nor the store clock"""
+    slot = E.ct_append("Log.__call__", log, None)
+    E.ct_bind_result(slot, None)
+    key = ("f", "C23File.pend", 0)
+    arr = E.harr(key, [IS], SS)
+    E.heap[key] = E.fresh("hv_logcall_pend", arr.sort())
+    E.note_write(key, None)
+    return None
+
+
+REG.classes["C23Log"].hooks[("call", None)] = _log_call
+REG.assume_note("C23 log() inside Logger.log is the rule action (C22's subject, outside this contract): it may buffer "
+                "text in log files; it changes neither the logger's fields nor the store's stamp, and raises nothing")
+
+G_ = dict(self=Ref("C23Logger"))
+LOGS_INV = "forall(lambda k: implies(0 <= k and k < len(self.logs), inv_log(self.logs[k])), trigger=lambda k: self.logs[k])"
+ALL_PEND = havoc_all_but({"C23File": ["pend"]}, [])
+ALL_HANDLES = havoc_all_but({"C23File": ["pend", "closed"], "C23Log": ["file", "first"]}, [])
+
+
+def _each(callee, extra=""):
+    inv = ["ct_len() == _i",
+           "forall(lambda k: implies(0 <= k and k < _i, ct_is(k, '%s', self.logs[k]%s)))" % (callee, extra)]
+    post = ["ct_len() == len(self.logs)",
+            "forall(lambda k: implies(0 <= k and k < len(self.logs), ct_is(k, '%s', self.logs[k]%s)))" % (callee, extra)]
+    return inv, post
+
+
+_fi, _fp = _each("Log.flush")
+contract(FL, "Logger.flush", "C23", params=G_, setup=fs_setup, modifies=FS_MOD + [ALL_PEND],
+         loops={0: dict(inv=_fi)}, local_ensures=_fp)
+_ci, _cp = _each("Log.close")
+contract(FL, "Logger.close", "C23", params=G_, setup=fs_setup, modifies=FS_MOD + [ALL_HANDLES],
+         loops={0: dict(inv=_ci)}, local_ensures=_cp)
+# every log is cycled exactly once, in order, WITH THE LOGGER'S SIZE THRESHOLD (the threshold is honoured: see the
+# `size` clauses of Log.cycle)
+_yi, _yp = _each("Log.cycle", ", self.fileSize")
+contract(FL, "Logger.cycle", "C23", params=G_, setup=fs_setup, assumes=[LOGS_INV], modifies=FS_MOD + [ALL_HANDLES],
+         loops={0: dict(inv=_yi)}, local_ensures=_yp)
+
+NOW = "self.store.stamp"
+DUE_F = ("(%s is not None and old(self.flushStamp) is not None and %s - old(self.flushStamp) >= self.flushPeriod)"
+         % (NOW, NOW))
+DUE_C = ("(self.keep != 0 and %s is not None and old(self.cycleStamp) is not None and "
+         "%s - old(self.cycleStamp) >= self.cyclePeriod)" % (NOW, NOW))
+NL = "len(self.logs)"
+LOG_POST = [
+    # one rule action per log, then a flush iff the flush period has elapsed, then a rotation iff rotation is enabled
+    # and the cycle period has elapsed - nothing else
+    "ct_len() == %s + (1 if %s else 0) + (1 if %s else 0)" % (NL, DUE_F, DUE_C),
+    "forall(lambda k: implies(0 <= k and k < %s, ct_is(k, 'Log.__call__', self.logs[k])))" % NL,
+    "implies(%s, ct_is(%s, 'Logger.flush', self))" % (DUE_F, NL),
+    "implies(%s, ct_is(ct_len() - 1, 'Logger.cycle', self))" % DUE_C,
+    # the stamps: taken at a flush / rotation (and when a stamp is None), otherwise kept
+    "implies(%s or %s is None or old(self.flushStamp) is None, self.flushStamp == %s)" % (DUE_F, NOW, NOW),
+    "implies(not %s and %s is not None and old(self.flushStamp) is not None, self.flushStamp == old(self.flushStamp))"
+    % (DUE_F, NOW),
+    "implies(self.keep == 0, self.cycleStamp == old(self.cycleStamp))",
+    "implies(self.keep != 0 and (%s or %s is None or old(self.cycleStamp) is None), self.cycleStamp == %s)"
+    % (DUE_C, NOW, NOW),
+    "implies(self.keep != 0 and not %s and %s is not None and old(self.cycleStamp) is not None, "
+    "self.cycleStamp == old(self.cycleStamp))" % (DUE_C, NOW),
+]
+contract(FL, "Logger.log", "C23", params=G_, setup=fs_setup, assumes=[LOGS_INV],
+         modifies=FS_MOD + [ALL_HANDLES, "self.flushStamp", "self.cycleStamp"],
+         loops={0: dict(inv=["ct_len() == _i",
+                             "forall(lambda k: implies(0 <= k and k < _i, ct_is(k, 'Log.__call__', self.logs[k])))"])},
+         local_ensures=LOG_POST)
+
+
+# ================================================================= native harness (real objects, real files)
+# The clauses above speak about the abstract file system (quantifiers, ghost maps): natively they are cross-checked
+# by a REFERENCE MODEL of the statement (`check=`), evaluated on real Log objects writing real files in a temporary
+# directory, with injected rename / open failures.
+def _n_read(path):
+    import os
+    if not os.path.exists(path):
+        return None
+    with open(path) as f:
+        return f.read()
+
+
+def _n_snapshot(d):
+    import os
+    return {os.path.join(d, n): _n_read(os.path.join(d, n)) for n in sorted(os.listdir(d))}
+
+
+def _n_make_log(rng, i, cex, nr, opened=True):
+    import tempfile, atexit, shutil
+    mod = nr.mod
+    from ioflo.base import storing
+    d = tempfile.mkdtemp(prefix="c23nat")
+    atexit.register(shutil.rmtree, d, True)
+    mod.Log.Clear()
+    store = storing.Store(stamp=0.0)
+    log = mod.Log(name="n%d" % i, store=store, kind="text", baseFilename="lg%d" % i)
+    log.header = "kind\trule\tname\n_time\tv\n"
+    keep = rng.choice([0, 1, 2, 3, 3])
+    env = {"self": log, "__dir": d, "__keep": keep, "__pend": ""}
+    if opened:
+        assert log.reopen(prefix=d, keep=keep)
+        log.file.write(log.header)
+        for r in range(rng.randint(0, 4)):
+            log.file.write("%d\trec%d\n" % (r, rng.randint(0, 99)))
+        log.file.flush()
+        for k, p in enumerate(log.paths[1:]):
+            if rng.random() < 0.7:
+                with open(p, "w") as f:
+                    f.write(log.header + "old%d\t%d\n" % (k, rng.randint(0, 99)))
+        if rng.random() < 0.6:
+            env["__pend"] = "p\tpending%d\n" % rng.randint(0, 99)
+            log.file.write(env["__pend"])          # stays in the user-space buffer (small)
+        if rng.random() < 0.15:
+            log.close()
+    snap = _n_snapshot(d)
+    if log.file is not None and not log.file.closed:
+        snap[log.path] = (snap.get(log.path) or "") + env["__pend"]     # LOGICAL content
+    env["__before"] = snap
+    env["__first"] = log.first
+    return env
+
+
+def _n_logical_after(env):
+    log = env["self"]
+    if log.file is not None and not log.file.closed:
+        log.file.flush()
+    return _n_snapshot(env["__dir"])
+
+
+def _n_check_flush(env, nr, outcome, result, exc):
+    msgs = []
+    if outcome != "return":
+        return ["flush raised %r" % (exc,)]
+    now = _n_snapshot(env["__dir"])           # read through the OS, no flush by the harness
+    if now != env["__before"]:
+        msgs.append("after flush() the visible files differ from everything written before: %r vs %r"
+                    % (now, env["__before"]))
+    return msgs
+
+
+def _n_check_close(env, nr, outcome, result, exc):
+    log = env["self"]
+    msgs = _n_check_flush(env, nr, outcome, result, exc)
+    if log.file is not None and not log.file.closed:
+        msgs.append("close() left the file open")
+    return msgs
+
+
+def _n_make_cycle(rng, i, cex, nr):
+    env = _n_make_log(rng, i, cex, nr)
+    log = env["self"]
+    main = env["__before"].get(log.path) or ""
+    env["size"] = rng.choice([0, 0, 1, len(main.encode()), len(main.encode()) + 1, 10 ** 6])
+    env["__fail_at"] = None
+    if log.paths and len(log.paths) > 1 and rng.random() < 0.4:
+        env["__fail_at"] = rng.randrange(len(log.paths) - 1)
+    env["__fail_trunc"] = rng.random() < 0.1
+    return env
+
+
+def _n_call_cycle(env, nr):
+    import os
+    mod = nr.mod
+    log = env["self"]
+    real_rename, real_ocfn = os.rename, mod.ocfn
+    fail_name = log.paths[env["__fail_at"]] if env["__fail_at"] is not None else None
+    env["__ren_failed"] = env["__trunc_failed"] = False
+
+    def rename(a, b):
+        if not os.path.exists(a) or a == fail_name:
+            env["__ren_failed"] = True
+            env["__failed_k"] = log.paths.index(a)
+            raise OSError(13, "injected / absent")
+        return real_rename(a, b)
+
+    def ocfn(path, mode="r+", binary=False):
+        if mode == "w+" and env["__fail_trunc"]:
+            env["__trunc_failed"] = True
+            raise IOError(13, "injected")
+        return real_ocfn(path, mode, binary)
+    os.rename, mod.ocfn = rename, ocfn
+    try:
+        return log.cycle(size=env["size"])
+    finally:
+        os.rename, mod.ocfn = real_rename, real_ocfn
+
+
+def _n_check_cycle(env, nr, outcome, result, exc):
+    """reference model of the statement for one rotation"""
+    log, B = env["self"], env["__before"]
+    if outcome != "return":
+        return ["cycle raised %r" % (exc,)]
+    A = _n_logical_after(env)
+    P = list(log.paths)
+    msgs = []
+    others = [q for q in set(A) | set(B) if q not in P]
+    if any(A.get(q) != B.get(q) for q in others):
+        msgs.append("a file outside the rotation changed")
+    if not P:
+        if result is not True or A != B:
+            msgs.append("rotation disabled but something changed / result %r" % (result,))
+        return msgs
+    main = B.get(log.path)
+    if env["size"] > 0 and main is not None and len(main.encode()) < env["size"]:
+        if result is not False or A != B:
+            msgs.append("below the size threshold but result=%r / contents changed" % (result,))
+        return msgs
+    if env["__ren_failed"]:
+        k = env["__failed_k"]
+        exp = dict(B)
+        for j in range(k + 1, len(P) - 1):
+            exp[P[j + 1]] = B.get(P[j])
+        if k + 1 < len(P) - 1:
+            exp[P[k + 1]] = None
+        if exp.get(P[0]) is None:
+            exp[P[0]] = ""                  # re-created empty by the reopen
+        if result is not False or any(A.get(q) != exp.get(q) for q in P):
+            msgs.append("failed rename at %d: expected %r got %r (result %r)" % (k, exp, A, result))
+        if log.file is None or log.file.closed:
+            msgs.append("main file not reopened after a failed rename")
+        return msgs
+    exp = dict(B)
+    for j in range(len(P) - 1):
+        exp[P[j + 1]] = B.get(P[j])
+    exp[P[0]] = None if env["__trunc_failed"] else log.header
+    if result is not (not env["__trunc_failed"]) or any(A.get(q) != exp.get(q) for q in P):
+        msgs.append("rotation: expected %r got %r (result %r)" % (exp, A, result))
+    return msgs
+
+
+def _n_make_reopen(rng, i, cex, nr):
+    env = _n_make_log(rng, i, cex, nr, opened=rng.random() < 0.7)
+    env["prefix"] = env["__dir"]
+    env["keep"] = rng.choice([0, 0, 1, 2, 4])
+    return env
+
+
+def _n_check_reopen(env, nr, outcome, result, exc):
+    log, B = env["self"], env["__before"]
+    if outcome != "return":
+        return ["reopen raised %r" % (exc,)]
+    A = _n_logical_after(env)
+    msgs = []
+    for q, text in B.items():
+        if A.get(q) != text:
+            msgs.append("reopen changed / truncated %s: %r -> %r" % (q, text, A.get(q)))
+    for q, text in A.items():
+        if q not in B and text != "":
+            msgs.append("new file %s is not empty" % q)
+    if result and (log.file is None or log.file.closed or log.file.name != log.path):
+        msgs.append("result True but no open handle on path")
+    if B.get(log.path) is not None and log.first:
+        msgs.append("first stays True for a file that existed (second header)")
+    if env["keep"] > 0 and result and (len(log.paths) != env["keep"] + 1 or len(set(log.paths)) != len(log.paths)
+                                       or log.paths[0] != log.path):
+        msgs.append("paths are not the main path followed by keep distinct names: %r" % (log.paths,))
+    return msgs
+
+
+_NL = lambda mk, ck, call=None, n=60: dict(make=mk, check=ck, count=n, **({"call": call} if call else {}))  # noqa
+for _q, _spec in (("Log.flush", _NL(_n_make_log, _n_check_flush, lambda env, nr: env["self"].flush())),
+                  ("Log.close", _NL(_n_make_log, _n_check_close, lambda env, nr: env["self"].close())),
+                  ("Log.cycle", _NL(_n_make_cycle, _n_check_cycle, _n_call_cycle, 120)),
+                  ("Log.reopen", _NL(_n_make_reopen, _n_check_reopen,
+                                     lambda env, nr: env["self"].reopen(prefix=env["prefix"], keep=env["keep"])))):
+    REG.contracts[(FL, _q)][0].replay = _spec
+
+
+def _n_make_ocfn(rng, i, cex, nr):
+    import tempfile, atexit, shutil, os
+    d = tempfile.mkdtemp(prefix="c23ocfn")
+    atexit.register(shutil.rmtree, d, True)
+    path = os.path.join(d, "f.txt")
+    before = None
+    if rng.random() < 0.6:
+        before = "abc%d\n" % rng.randint(0, 9)
+        with open(path, "w") as f:
+            f.write(before)
+    mode = ["a+", "w+", "r", "r+"][nr.case if nr.case is not None else 0]
+    return {"filename": path, "openMode": mode, "__before": before}
+
+
+def _n_check_ocfn(env, nr, outcome, result, exc):
+    if outcome != "return":
+        return ["ocfn raised %r" % (exc,)]
+    result.close()
+    now = _n_read(env["filename"])
+    exp = "" if (env["__before"] is None or env["openMode"] == "w+") else env["__before"]
+    return [] if now == exp else ["ocfn(%s): file holds %r, expected %r" % (env["openMode"], now, exp)]
+
+
+REG.contracts[(FF, "ocfn")][0].replay = dict(make=_n_make_ocfn, check=_n_check_ocfn, count=20)
+
+
+class _NLog:
+    """recording double of a Log for the Logger-level decisions"""
+    def __init__(self, trace, k):
+        self.trace, self.k = trace, k
+
+    def __call__(self):
+        self.trace.append(("call", self.k))
+
+    def flush(self):
+        self.trace.append(("Log.flush", self.k))
+
+    def close(self):
+        self.trace.append(("Log.close", self.k))
+
+    def cycle(self, size=0):
+        self.trace.append(("Log.cycle", self.k, size))
+        return True
+
+
+def _n_make_logger(rng, i, cex, nr):
+    mod = nr.mod
+    lg = object.__new__(mod.Logger)
+    trace = []
+    lg.logs = [_NLog(trace, k) for k in range(rng.randint(0, 3))]
+    lg.name = "lg"
+    lg.store = type("StoreDouble", (), {})()
+    lg.store.stamp = rng.choice([None, 0.0, 1.0, 2.5, 30.0, 31.0])
+    lg.flushStamp = rng.choice([None, 0.0, 1.0, 2.0])
+    lg.cycleStamp = rng.choice([None, 0.0, 1.0, 2.0])
+    lg.flushPeriod = rng.choice([1.0, 1.5, 30.0])
+    lg.cyclePeriod = rng.choice([0.5, 1.0, 29.0])
+    lg.keep = rng.choice([0, 0, 2])
+    lg.fileSize = rng.choice([0, 100])
+    real_flush, real_cycle = mod.Logger.flush, mod.Logger.cycle
+    return {"self": lg, "__trace": trace, "__pre": (lg.flushStamp, lg.cycleStamp)}
+
+
+def _n_check_each(what):
+    def check(env, nr, outcome, result, exc):
+        lg = env["self"]
+        exp = [(what, k) + ((lg.fileSize,) if what == "Log.cycle" else ()) for k in range(len(lg.logs))]
+        return [] if (outcome == "return" and env["__trace"] == exp) else ["trace %r, expected %r" % (env["__trace"], exp)]
+    return check
+
+
+def _n_check_logger_log(env, nr, outcome, result, exc):
+    lg = env["self"]
+    if outcome != "return":
+        return ["Logger.log raised %r" % (exc,)]
+    f0, c0 = env["__pre"]
+    now = lg.store.stamp
+    n = len(lg.logs)
+    exp = [("call", k) for k in range(n)]
+    due_f = now is not None and f0 is not None and now - f0 >= lg.flushPeriod
+    due_c = bool(lg.keep) and now is not None and c0 is not None and now - c0 >= lg.cyclePeriod
+    if due_f:
+        exp += [("Log.flush", k) for k in range(n)]
+    if due_c:
+        exp += [("Log.cycle", k, lg.fileSize) for k in range(n)]
+    msgs = []
+    if env["__trace"] != exp:
+        msgs.append("trace %r, expected %r" % (env["__trace"], exp))
+    exp_f = now if (due_f or now is None or f0 is None) else f0
+    exp_c = c0 if not lg.keep else (now if (due_c or now is None or c0 is None) else c0)
+    if lg.flushStamp != exp_f or lg.cycleStamp != exp_c:
+        msgs.append("stamps (%r, %r), expected (%r, %r)" % (lg.flushStamp, lg.cycleStamp, exp_f, exp_c))
+    return msgs
+
+
+for _q, _ck in (("Logger.flush", _n_check_each("Log.flush")), ("Logger.close", _n_check_each("Log.close")),
+                ("Logger.cycle", _n_check_each("Log.cycle")), ("Logger.log", _n_check_logger_log)):
+    REG.contracts[(FL, _q)][0].replay = dict(make=_n_make_logger, check=_ck, count=80)
